@@ -126,6 +126,10 @@ def errCombined (f ε₁ ε₂ : Rat) : Rat := f + f * ε₁ + ε₂
 def errAdditiveLog (F : Funs) (f ε : Rat) : Rat := F.log f + ε / f
 def errProportionalLog (F : Funs) (f ε : Rat) : Rat := F.log f + ε
 def errCombinedLog (F : Funs) (f ε₁ ε₂ : Rat) : Rat := F.log f + ε₁ + ε₂ / f
+/-- combined error under the residual-error modifiers: `set_iiv_on_ruv` multiplies *every* epsilon by `exp(eta)`,
+    `set_time_varying_error_model` multiplies *every* epsilon by theta before the cutoff; `s` is the product of the
+    factors in force: `f + (f·ε₁ + ε₂)·s` -/
+def errCombinedScaled (f ε₁ ε₂ s : Rat) : Rat := f + (f * ε₁ + ε₂) * s
 def errPower (F : Funs) (f θ ε : Rat) : Rat := f + F.pow f θ * ε
 
 def allometry (F : Funs) (p x z t : Rat) : Rat := p * F.pow (x / z) t
@@ -332,6 +336,29 @@ def tvScaled (theta : Sym) (y : Expr) : List Sym → Expr
 
 def timeVarying (y : Expr) (eps : List Sym) (theta : Sym) (cond : Expr) : Expr :=
   .f3 "ite" cond (tvScaled theta y eps) y
+
+/-! `set_combined_error_model` on a model whose `Y` is the two-branch piecewise written by
+    `set_time_varying_error_model` (the `expr.is_piecewise()` arm): in both branch values every epsilon of the model
+    is replaced by the new proportional epsilon (one `subs` per epsilon, in model order) and the new additive epsilon
+    is added with the factors of the modifiers that are present: `theta_time` before the cutoff, `exp(eta_ruv)` when
+    the model has IIV on RUV. -/
+
+/-- `for eps in epsilons: expr = expr.subs({eps: ruv_prop})` -/
+def substEps (p : Sym) (e : Expr) : List Sym → Expr
+  | [] => e
+  | x :: xs => substEps p (Expr.subst1 x (.sym p) e) xs
+
+/-- the additive term: `ruv_add * theta_time [* exp(eta_ruv)]` before the cutoff, `ruv_add [* exp(eta_ruv)]` after -/
+def combAddTerm (pre hasEta : Bool) (a eta theta : Sym) : Expr :=
+  let t := if pre then eMul (.sym a) (.sym theta) else .sym a
+  if hasEta then eMul t (.f1 "exp" (.sym eta)) else t
+
+def combinedOnTimeVarying (e0 e1 cond : Expr) (eps : List Sym) (p a : Sym) (hasEta : Bool) (eta theta : Sym) : Expr :=
+  .f3 "ite" cond (eAdd (substEps p e0 eps) (combAddTerm true hasEta a eta theta))
+                 (eAdd (substEps p e1 eps) (combAddTerm false hasEta a eta theta))
+
+/-- the environment in which every old epsilon has the value of the new proportional epsilon -/
+def epsTo (ρ : Env Rat) (es : List Sym) (p : Sym) : Env Rat := fun s => if s ∈ es then ρ p else ρ s
 
 def dtbsIpred (f : Expr) (lam : Sym) : Expr := inst [("f", f), ("lam", .sym lam)] Gen.dtbsIpred
 def dtbsW (f : Expr) (zeta : Sym) : Expr := inst [("f", f), ("zeta", .sym zeta)] Gen.dtbsW
